@@ -18,7 +18,7 @@ theorems for *every* interleaving of their events:
   (clone of the tree version — a step of its own, `rTree`, which the code makes inside the critical
   section in which it takes `mem`, `imm` and a timestamp, `rSnap`; lookups afterwards).
   `completed = true`: the timestamp is `visible`, the number of the last writer that left the
-  wait list (the repaired store, fixes/d6-read-at-last-completed-seq.diff); `completed = false`:
+  wait list (the repaired store, /repo fix 000c41c); `completed = false`:
   the last *assigned* number (the store as found, D-6).
 * `Blue.KvsWrite` — the writers alone, timestamp as found (the first model, kept: its theorems are
   the as-found statements).
